@@ -7,7 +7,7 @@ class C05(LogCheck):
     vfiles = VFILES + ["Properties/Properties_C05.v"]
     ocaml = OCAML
     corpus = "C05.txt"
-    level_text = ("Sixteen theorems proved in Coq for ALL compile-time minima, thresholds, filter expressions (and/or/not/null over any "
+    level_text = ("Seventeen theorems proved in Coq for ALL compile-time minima, thresholds, filter expressions (and/or/not/null over any "
                   "number of threshold filters, incl. the not<not<F>> specialisation), severities, tags, item lists and sequence "
                   "sizes, over a Gallina model that follows stream.hpp/logger.hpp statement by statement (smart_stream's two "
                   "unique_ptrs, move construction along the << chain, destruction order of the temporaries, null_stream): the "
@@ -31,7 +31,7 @@ class C05(LogCheck):
             "setting, severity, form) with rotating item shapes/tags + all 40 item shapes x forms x tags x severities x minima "
             "under two loggers + random programs and statement sequences from VERIF_SEED; thorough: the complete single-statement "
             "space (all minima x loggers x relevant thresholds x severities x 2 forms x tag/no tag x every instantiated item "
-            "shape) + 90k random programs. Non-trivial: something was delivered or a callable was streamed. distinct = distinct case line")
+            "shape) + 900k random programs and statement sequences. Non-trivial: something was delivered or a callable was streamed. distinct = distinct case line")
     modelled_note = ("modelled, not verified: lifetime of the temporaries of a << chain and copy elision (one move per <<), overload "
                      "resolution between the callable and the value operator<<, unique_ptr semantics, decimal rendering of "
                      "integers by std::ostream, evaluation order inside lang::tuple_foreach; string_ref tags end at the first NUL; "
